@@ -6,7 +6,9 @@ Mirrors, as they are in the tree,
 
 * `sudachi/src/analysis/node.rs`: `concat_nodes`, `concat_oov_nodes`;
 * `sudachi/src/plugin/path_rewrite/join_katakana_oov/mod.rs`: `rewrite_gen` and its helpers;
-* `sudachi/src/plugin/path_rewrite/join_numeric/mod.rs`: `concat`, `rewrite_gen`;
+* `sudachi/src/plugin/path_rewrite/join_numeric/mod.rs`: `concat`, `rewrite_gen` (two code variants,
+  `NVariant`: `cur` = the loop as it is in the pinned tree, `fix` = the repair of finding F2, which
+  restarts a run only when the separator flag was still set);
 * `sudachi/src/analysis/stateful_tokenizer.rs:150-154`: the plugins are applied in configured order
   (`rewriteAll`).
 
@@ -275,6 +277,20 @@ def nconcat (cfg : NCfg) (P : List Char → POut) (path : List Node) (b e : Nat)
     else if e - b > 1 then concatNodes path b e none
     else .ok path
 
+/-- code variants of `rewrite_gen`'s reaction to a failing `parser.append`:
+
+* `cur` — the pinned tree: `if error_state == COMMA { comma_as_digit = false; i = begin_idx - 1 }
+  else if error_state == POINT { period_as_digit = false; i = begin_idx - 1 }`;
+* `fix` — the repair of F2: `if error_state == COMMA && comma_as_digit { … } else if
+  error_state == POINT && period_as_digit { … }` (restart only if the flag was still set).
+
+The harness selects the variant by probing the source it is built against (token `nv=` of the case
+line, default `cur`). -/
+inductive NVariant where
+  | cur
+  | fix
+deriving Repr, DecidableEq
+
 structure NState where
   path : List Node
   i : Int
@@ -293,7 +309,8 @@ def utf8Len (s : List Char) : Nat := s.foldl (fun a c => a + utf8Width c) 0
 def isNumericCat (c : Nat) : Bool := c &&& (NUMERIC ||| KANJINUMERIC) != 0
 
 /-- one iteration of `while i < path.len() as i32 - 1 { … }` (the caller has checked the guard) -/
-def nstep (cfg : NCfg) (cat : List Nat) (P : List Char → POut) (st : NState) : Outcome NState :=
+def nstep (v : NVariant) (cfg : NCfg) (cat : List Nat) (P : List Char → POut) (st : NState) :
+    Outcome NState :=
   let i := st.i + 1
   if i < 0 then .panic else
   match st.path[i.toNat]? with
@@ -312,12 +329,21 @@ def nstep (cfg : NCfg) (cat : List Nat) (P : List Char → POut) (st : NState) :
         let out := P acc
         if out.n < acc.length then
           -- append failed (begin_idx >= 0 holds here)
-          if out.err == E_COMMA then
-            .ok { st with i := bi - 1, beginIdx := -1, comma := false, acc := acc }
-          else if out.err == E_POINT then
-            .ok { st with i := bi - 1, beginIdx := -1, period := false, acc := acc }
-          else
-            .ok { st with i := i, beginIdx := -1, acc := acc }
+          match v with
+          | .cur =>
+            if out.err == E_COMMA then
+              .ok { st with i := bi - 1, beginIdx := -1, comma := false, acc := acc }
+            else if out.err == E_POINT then
+              .ok { st with i := bi - 1, beginIdx := -1, period := false, acc := acc }
+            else
+              .ok { st with i := i, beginIdx := -1, acc := acc }
+          | .fix =>
+            if out.err == E_COMMA && st.comma then
+              .ok { st with i := bi - 1, beginIdx := -1, comma := false, acc := acc }
+            else if out.err == E_POINT && st.period then
+              .ok { st with i := bi - 1, beginIdx := -1, period := false, acc := acc }
+            else
+              .ok { st with i := i, beginIdx := -1, acc := acc }
         else
           .ok { st with i := i, beginIdx := bi, acc := acc }
       else
@@ -364,24 +390,28 @@ def ntail (cfg : NCfg) (P : List Char → POut) (st : NState) : Outcome (List No
   else .ok st.path
 
 /-- `JoinNumericPlugin::rewrite_gen` -/
-def nloop (cfg : NCfg) (cat : List Nat) (P : List Char → POut) : Nat → NState → Outcome (List Node)
+def nloop (v : NVariant) (cfg : NCfg) (cat : List Nat) (P : List Char → POut) :
+    Nat → NState → Outcome (List Node)
   | 0, _ => .fuel
   | fuel + 1, st =>
     if st.i < (st.path.length : Int) - 1 then
-      match nstep cfg cat P st with
-      | .ok st' => nloop cfg cat P fuel st'
+      match nstep v cfg cat P st with
+      | .ok st' => nloop v cfg cat P fuel st'
       | .err => .err | .panic => .panic | .fuel => .fuel
     else ntail cfg P st
 
 def nInit (path : List Node) : NState :=
   { path := path, i := -1, beginIdx := -1, comma := true, period := true, acc := [] }
 
-/-- generous fuel used by the driver: every run either advances or clears one of the two flags -/
+/-- fuel used by the driver.  For the variant `fix` it is never exhausted
+(`C14.join_numeric_total`: every iteration moves the start of the current run forward, or clears one
+of the two flags, or advances the index); for `cur` no amount suffices on some inputs
+(`C14.numeric_rewrite_diverges_counterexample`) and running out is reported as `HANG`. -/
 def nFuel (path : List Node) : Nat := 4 * (path.length + 1) * (path.length + 1) + 8
 
-def joinNumeric (cfg : NCfg) (cat : List Nat) (P : List Char → POut) (path : List Node) :
+def joinNumeric (v : NVariant) (cfg : NCfg) (cat : List Nat) (P : List Char → POut) (path : List Node) :
     Outcome (List Node) :=
-  nloop cfg cat P (nFuel path) (nInit path)
+  nloop v cfg cat P (nFuel path) (nInit path)
 
 /-! ## the plugin stack (`for plugin in path_rewrite_plugins { path = plugin.rewrite(..)? }`) -/
 
@@ -390,17 +420,18 @@ inductive Plugin where
   | katakana (cfg : KCfg)
 deriving Repr
 
-def applyPlugin (cat : List Nat) (P : List Char → POut) (pl : Plugin) (path : List Node) :
+def applyPlugin (v : NVariant) (cat : List Nat) (P : List Char → POut) (pl : Plugin) (path : List Node) :
     Outcome (List Node) :=
   match pl with
-  | .numeric cfg => joinNumeric cfg cat P path
+  | .numeric cfg => joinNumeric v cfg cat P path
   | .katakana cfg => joinKatakana cfg cat path
 
-def rewriteAll (cat : List Nat) (P : List Char → POut) : List Plugin → List Node → Outcome (List Node)
+def rewriteAll (v : NVariant) (cat : List Nat) (P : List Char → POut) :
+    List Plugin → List Node → Outcome (List Node)
   | [], path => .ok path
   | pl :: rest, path =>
-    match applyPlugin cat P pl path with
-    | .ok p' => rewriteAll cat P rest p'
+    match applyPlugin v cat P pl path with
+    | .ok p' => rewriteAll v cat P rest p'
     | .err => .err | .panic => .panic | .fuel => .fuel
 
 /-! ## driver entry -/
@@ -489,15 +520,23 @@ def showOutcome (o : Outcome (List Node)) : String :=
   | .panic => "PANIC"
   | .fuel => "HANG"
 
-/-- `C14 stack idx=.. cat=<masks> plugins=<p;p..> path=<node;..> pq=<entry;..>` -/
+/-- token `nv=cur|fix`: which variant of the numeric loop the tree under test has; absent = `cur`;
+anything else is rejected -/
+def parseVariant (t : Option (List Char)) : Option NVariant :=
+  match t with
+  | none => some .cur
+  | some s => if s == "cur".toList then some .cur else if s == "fix".toList then some .fix else none
+
+/-- `C14 stack idx=.. [nv=cur|fix] cat=<masks> plugins=<p;p..> path=<node;..> pq=<entry;..>` -/
 def handle (toks : List (List Char)) : String :=
-  match Wire.kv? toks "cat", Wire.kv? toks "plugins", Wire.kv? toks "path", Wire.kv? toks "pq" with
-  | some c, some pl, some pa, some pq =>
+  match Wire.kv? toks "cat", Wire.kv? toks "plugins", Wire.kv? toks "path", Wire.kv? toks "pq",
+        parseVariant (Wire.kv? toks "nv") with
+  | some c, some pl, some pa, some pq, some v =>
     match Wire.natList? c, Wire.allSome ((Wire.items ';' pl).map parsePlugin),
           Wire.allSome ((Wire.items ';' pa).map parseNode), Wire.allSome ((Wire.items ';' pq).map parsePq) with
     | some cat, some plugins, some path, some tab =>
-      showOutcome (rewriteAll cat (tableP tab) plugins path)
+      showOutcome (rewriteAll v cat (tableP tab) plugins path)
     | _, _, _, _ => "bad-op"
-  | _, _, _, _ => "bad-op"
+  | _, _, _, _, _ => "bad-op"
 
 end Rewrite
